@@ -40,6 +40,7 @@ type Profile struct {
 	Queries     bool   // resources 0 and 1 are query resources (normalisation q=K -> q=K mod 2) with query events
 	LongRids    bool   // resource ids around the control-line limit
 	Endgame     bool   // finish by disconnecting every client and firing every eviction timer
+	ResetFaults bool   `json:",omitempty"` // get requests for resources that did not change silently may fail (re-fetches of resets included)
 	Legacy      bool   `json:",omitempty"` // some clients negotiate protocol 1.2.0 / 1.1.1 or send no version request
 	Scenario    string `json:",omitempty"` // phase-structured histories (scenario.go) instead of independent random stimuli
 }
@@ -68,6 +69,7 @@ type Explorer struct {
 	focusC, focusR int
 	slowR          int
 	slowTyp        string
+	dirty          map[string]bool // resources changed silently (announced by a reset only) and not fetched successfully since
 }
 
 func name(n int) string { return "test.r" + strconv.Itoa(n) }
@@ -207,6 +209,10 @@ func (x *Explorer) answerFor(q *gw.Req) gw.Action {
 		return a
 	}
 	fault := x.P.Faults && x.R.Intn(8) == 0
+	if x.P.ResetFaults && typ == "get" && !x.dirty[rest] && x.R.Intn(6) == 0 {
+		// the resource has not changed silently since it was last fetched: a failing (re-)fetch leaves nobody stale
+		fault = true
+	}
 	if x.P.Malformed && x.R.Intn(6) == 0 {
 		// a malformed or protocol-violating answer: the gateway must treat it as a failed request, nothing else
 		bad := []string{`{`, ``, `null`, `[]`, `"x"`, `{"result":5}`, `{"result":{"model":{"k0":[1]}}}`, `{"result":{"model":{"k0":{"rid":""}}}}`,
@@ -297,6 +303,7 @@ func (x *Explorer) answerFor(q *gw.Req) gw.Action {
 			a.Text, a.Abs = `{"error":{"code":"system.notFound","message":"Not found"}}`, "err\tsystem.notFound"
 		default:
 			a.Text, a.Abs = `{"result":`+contentJSON(c)+`}`, "get\t"+c.Abs()
+			delete(x.dirty, rest)
 		}
 	case "access":
 		// the access policy is a function of (token, resource) that only changes together with an announcement
@@ -435,7 +442,7 @@ func (x *Explorer) svcEvent() (gw.Action, bool) {
 		x.deletedRids[name(n)] = true
 	case c.IsModel:
 		ch := absval.KV{}
-		for e := 1 + x.R.Intn(2); e > 0; e-- {
+		for e := 1 + x.R.Intn(3); e > 0; e-- {
 			key := x.R.Intn(4)
 			if _, ok := c.M[key]; ok && x.R.Intn(4) == 0 {
 				ch[key] = absval.V{K: 'x'}
@@ -558,7 +565,7 @@ func (x *Explorer) quiesce(label string) {
 
 // Explore runs one random history and returns the run.
 func Explore(seed int64, p Profile) (run *gw.Run, stall error) {
-	x := &Explorer{R: gen.New(seed), P: p, nextID: map[string]uint64{}, outstanding: map[string]int{}, direct: map[string]int{}, reqOf: map[string]string{}, tokens: map[string]int{}, deletedRids: map[string]bool{}, pol: map[string]accessPolicy{}, pendingQuery: map[string]*pendingQ{}}
+	x := &Explorer{R: gen.New(seed), P: p, nextID: map[string]uint64{}, outstanding: map[string]int{}, direct: map[string]int{}, reqOf: map[string]string{}, tokens: map[string]int{}, deletedRids: map[string]bool{}, pol: map[string]accessPolicy{}, pendingQuery: map[string]*pendingQ{}, dirty: map[string]bool{}}
 	x.Run = gw.NewRun(func(c *server.Config) {
 		c.ReferenceThrottle = p.Throttle
 		c.ResetThrottle = p.Throttle
@@ -915,6 +922,7 @@ func (x *Explorer) silentMutation(n int) {
 			}
 		}
 	}
+	x.dirty[name(n)] = true
 	x.Run.Do(gw.Action{A: "note", Abs: "SILENT\t" + strconv.Itoa(n)})
 }
 
